@@ -113,6 +113,7 @@ type caseB struct {
 	SizeIdx int    `json:"size_idx"`
 	Range   string `json:"range"`
 	Head    bool   `json:"head"`
+	Dir     bool   `json:"dir,omitempty"` // the directory object dirobj/ (zero bytes) instead; size_idx only shaped the range
 }
 
 var (
@@ -145,6 +146,9 @@ func setup() error {
 			return fmt.Errorf("put object: %v", r)
 		}
 	}
+	if r := cl.MustCall("PUT", "/rng/dirobj/", nil, nil, nil); !r.OK() {
+		return fmt.Errorf("put directory object: %v", r)
+	}
 	return nil
 }
 
@@ -153,6 +157,10 @@ func runB(c caseB) error {
 		return fmt.Errorf("SETUP: %w", err)
 	}
 	obj := bodies[c.SizeIdx]
+	path := fmt.Sprintf("/rng/obj%d", c.SizeIdx)
+	if c.Dir {
+		obj, path = nil, "/rng/dirobj/"
+	}
 	size := int64(len(obj))
 	method := "GET"
 	if c.Head {
@@ -162,11 +170,14 @@ func runB(c caseB) error {
 	if c.Range != "" {
 		h = append(h, s3c.KV{K: "Range", V: c.Range})
 	}
-	r, err := cl.Call(method, fmt.Sprintf("/rng/obj%d", c.SizeIdx), nil, h, nil)
+	r, err := cl.Call(method, path, nil, h, nil)
 	if err != nil {
 		return fmt.Errorf("transport: %w", err)
 	}
 	pfx := fmt.Sprintf("%s size=%d Range=%q: ", method, size, c.Range)
+	if c.Dir {
+		pfx = "directory object, " + pfx
+	}
 	if r.Malformed != "" {
 		return fmt.Errorf(pfx+"malformed response: %s", r.Malformed)
 	}
@@ -230,7 +241,7 @@ func TestC13B(t *testing.T) {
 	}
 	ev.Check(t, "C13B", func(t *rapid.T) {
 		idx := rapid.IntRange(0, len(sizes)-1).Draw(t, "size_idx")
-		c := caseB{SizeIdx: idx, Range: rangeGen(sizes[idx]).Draw(t, "range"), Head: rapid.IntRange(0, 9).Draw(t, "head") == 0}
+		c := caseB{SizeIdx: idx, Range: rangeGen(sizes[idx]).Draw(t, "range"), Head: rapid.IntRange(0, 9).Draw(t, "head") == 0, Dir: rapid.IntRange(0, 11).Draw(t, "dir") == 0}
 		if strings.ContainsAny(c.Range, "\r\n\x00") {
 			c.Range = "bytes=0-0"
 		}
@@ -240,7 +251,10 @@ func TestC13B(t *testing.T) {
 		if c.Head {
 			m = "HEAD"
 		}
-		ev.Case(fmt.Sprintf("B|%d|%s|%v", idx, c.Range, c.Head), c.Range != "" && sizes[idx] > 0, "B:"+m+":"+cls)
+		if c.Dir {
+			m += ":dirobj"
+		}
+		ev.Case(fmt.Sprintf("B|%d|%s|%v|%v", idx, c.Range, c.Head, c.Dir), c.Range != "" && sizes[idx] > 0, "B:"+m+":"+cls)
 		ev.Sample("B:"+cls, 1, c)
 		if err := runB(c); err != nil {
 			if strings.HasPrefix(err.Error(), "SETUP") {
